@@ -3,6 +3,7 @@ import Liquid.Value
 import Liquid.Parse
 import Liquid.TrimWriter
 import Liquid.ExprParse
+import Liquid.ExprShow
 import Liquid.Std
 import Liquid.Call
 import Liquid.Filters.Num
@@ -37,6 +38,21 @@ def showStmt (kind : String) (r : Res ParseErr Stmt) : String :=
     | "when", .when es => s!"ok {es.length}"
     | "e", _ => "err"
     | _, _ => "err-nostmt"
+
+/-- op `eshow`: parse the source as an expression and print the tree (`Expr.show`); the printed text is parsed
+    again and must give the same tree (compared through the canonical lexemes) -/
+def runEshow (src : Bytes) : String :=
+  match parseExprSource src with
+  | .ok e =>
+    if !e.printable then "unprintable"
+    else
+      let s := e.show
+      match parseExprSource s with
+      | .ok e' => if e'.lexemes == e.lexemes then "ok " ++ hexField s else "noroundtrip " ++ hexField s
+      | _ => "noroundtrip " ++ hexField s
+  | .err _ => "err"
+  | .panic _ => "panic"
+  | .unmodelled w => "unmodelled " ++ w
 
 def selectorOf (kind : String) : Bytes :=
   match kind with
@@ -261,6 +277,7 @@ def runCase (line : String) : String :=
     showCalls (writeCalls os)
   | ["eparse", kind, src] =>
     showStmt kind (parseSource (selectorOf kind ++ hexDecode src))
+  | ["eshow", src, _] => runEshow (hexDecode src)
   | ["render", cfgF, pathF, lineF, srcF, envF] => runRenderCase cfgF pathF lineF srcF envF
   | ["writes", cfgF, pathF, lineF, srcF, envF] => runWritesCase cfgF pathF lineF srcF envF
   | ["incl", cfgF, pathF, lineF, srcF, envF, mode] => runInclCase cfgF pathF lineF srcF envF mode
